@@ -14,7 +14,17 @@ import (
 	"fmt"
 	"testing"
 
+	"github.com/rs/zerolog"
+
+	"github.com/dadrus/heimdall/internal/config"
 	"github.com/dadrus/heimdall/internal/heimdall"
+	config2 "github.com/dadrus/heimdall/internal/rules/config"
+	"github.com/dadrus/heimdall/internal/rules/mechanisms/authenticators"
+	"github.com/dadrus/heimdall/internal/rules/mechanisms/authorizers"
+	"github.com/dadrus/heimdall/internal/rules/mechanisms/contextualizers"
+	"github.com/dadrus/heimdall/internal/rules/mechanisms/errorhandlers"
+	"github.com/dadrus/heimdall/internal/rules/mechanisms/finalizers"
+	"github.com/dadrus/heimdall/internal/rules/mechanisms/subject"
 	"github.com/dadrus/heimdall/internal/rules/rule"
 	"github.com/dadrus/heimdall/internal/zzverif/c02gen"
 	"github.com/dadrus/heimdall/internal/zzverif/vf"
@@ -48,7 +58,7 @@ func (m *c02TableMatcher) Matches(_ *heimdall.Request, keys, vals []string) erro
 	return errC02NotInTable
 }
 
-func c02RunRepo(c c02gen.RepoCase) (o c02gen.RepoObs) {
+func c02RunRepoOrder(c c02gen.RepoCase, order []int) (o c02gen.RepoObs) {
 	defer func() {
 		if p := recover(); p != nil {
 			o.Panic = fmt.Sprint(p)
@@ -64,7 +74,8 @@ func c02RunRepo(c c02gen.RepoCase) (o c02gen.RepoObs) {
 	repo := newRepository(factory)
 	var cur *c02gen.RepoLookup
 
-	for _, s := range c.Sets {
+	for _, si := range order {
+		s := c.Sets[si]
 		src := fmt.Sprintf("src%d", s.Src)
 		rules := make([]rule.Rule, 0, len(s.Rules))
 
@@ -120,6 +131,313 @@ func c02RunRepo(c c02gen.RepoCase) (o c02gen.RepoObs) {
 	}
 
 	return o
+}
+
+// ---- stream "processor": configuration -> real rule-set processor -> real factory -> real repository ----
+
+type c02Authn struct{}
+
+func (c02Authn) Execute(heimdall.Context) (*subject.Subject, error) {
+	return &subject.Subject{ID: "x"}, nil
+}
+func (c02Authn) WithConfig(map[string]any) (authenticators.Authenticator, error) {
+	return c02Authn{}, nil
+}
+func (c02Authn) IsFallbackOnErrorAllowed() bool { return false }
+func (c02Authn) ID() string                     { return "a" }
+func (c02Authn) ContinueOnError() bool          { return false }
+
+type c02MechFactory struct{}
+
+var errC02NoMech = errors.New("no such mechanism")
+
+func (c02MechFactory) CreateAuthenticator(_, _ string, _ config.MechanismConfig) (authenticators.Authenticator, error) {
+	return c02Authn{}, nil
+}
+
+func (c02MechFactory) CreateAuthorizer(_, _ string, _ config.MechanismConfig) (authorizers.Authorizer, error) {
+	return nil, errC02NoMech
+}
+
+func (c02MechFactory) CreateContextualizer(_, _ string, _ config.MechanismConfig) (contextualizers.Contextualizer, error) {
+	return nil, errC02NoMech
+}
+
+func (c02MechFactory) CreateFinalizer(_, _ string, _ config.MechanismConfig) (finalizers.Finalizer, error) {
+	return nil, errC02NoMech
+}
+
+func (c02MechFactory) CreateErrorHandler(_, _ string, _ config.MechanismConfig) (errorhandlers.ErrorHandler, error) {
+	return nil, errC02NoMech
+}
+
+func c02RuleConfig(c c02gen.RepoCase, ru c02gen.Rule) config2.Rule {
+	rc := config2.Rule{
+		ID:      c.Name(ru.ID),
+		Matcher: config2.Matcher{Scheme: ru.Scheme, Methods: append([]string(nil), ru.Methods...)},
+		Execute: []config.MechanismConfig{{"authenticator": "a"}},
+	}
+
+	if !ru.BtUnset {
+		bt := ru.Bt
+		rc.Matcher.BacktrackingEnabled = &bt
+	}
+
+	if ru.Host != "" {
+		rc.Matcher.Hosts = []config2.HostMatcher{{Type: "exact", Value: ru.Host}}
+	}
+
+	for _, p := range ru.Routes {
+		rc.Matcher.Routes = append(rc.Matcher.Routes, config2.Route{Path: p})
+	}
+
+	return rc
+}
+
+// c02RunRepo loads the rule sets in the order of the case and, as a twin, in reverse order: if
+// both orders accept every set, every request must be answered alike (order independence).
+func c02RunRepo(c c02gen.RepoCase) c02gen.RepoObs {
+	order := make([]int, len(c.Sets))
+	rev := make([]int, len(c.Sets))
+
+	for i := range order {
+		order[i] = i
+		rev[i] = len(c.Sets) - 1 - i
+	}
+
+	o := c02RunRepoOrder(c, order)
+	if len(c.Sets) < 2 || o.Panic != "" {
+		return o
+	}
+
+	all := func(bs []bool) bool {
+		for _, b := range bs {
+			if !b {
+				return false
+			}
+		}
+
+		return true
+	}
+
+	t := c02RunRepoOrder(c, rev)
+	if all(o.Sets) && all(t.Sets) && t.Panic == "" {
+		o.TwinChecked = true
+
+		for i := range o.Lookups {
+			if i >= len(t.Lookups) || o.Lookups[i] != t.Lookups[i] {
+				o.TwinMismatch = append(o.TwinMismatch, i)
+			}
+		}
+	}
+
+	return o
+}
+
+// ---- stream "history" ----------------------------------------------------------------------
+
+func c02RunHist(c c02gen.HistCase) (o c02gen.HistObs) {
+	defer func() {
+		if p := recover(); p != nil {
+			o.Panic = fmt.Sprint(p)
+		}
+	}()
+
+	conf := &config.Configuration{}
+	if c.Default {
+		conf.Default = &config.DefaultRule{Execute: []config.MechanismConfig{{"authenticator": "a"}}}
+	}
+
+	factory, err := NewRuleFactory(c02MechFactory{}, conf, config.DecisionMode, zerolog.Nop())
+	if err != nil {
+		panic(err)
+	}
+
+	repo := newRepository(factory)
+	proc := NewRuleSetProcessor(repo, factory)
+	rcase := c02gen.RepoCase{Names: c.Names}
+	known := map[int]map[string][]byte{} // rule-set id -> rule id -> definition hash of what is loaded
+
+	for _, op := range c.Ops {
+		rs := &config2.RuleSet{Version: config2.CurrentRuleSetVersion, Name: fmt.Sprintf("set%d", op.Src)}
+		rs.Source = fmt.Sprintf("src%d", op.Src)
+
+		hashes := map[string][]byte{}
+
+		var same, equal []bool
+
+		for _, ru := range op.Rules {
+			rc := c02RuleConfig(rcase, ru)
+			rc.EncodedSlashesHandling = []config2.EncodedSlashesHandling{
+				config2.EncodedSlashesOff, config2.EncodedSlashesOn, config2.EncodedSlashesOnNoDecode,
+			}[ru.Ver%3]
+
+			h, err := rc.Hash()
+			if err != nil {
+				panic(err)
+			}
+
+			hashes[rc.ID] = h
+			old, ok := known[op.Src][rc.ID]
+			same = append(same, ok)
+			equal = append(equal, ok && string(old) == string(h))
+
+			rs.Rules = append(rs.Rules, rc)
+		}
+
+		o.Same = append(o.Same, same)
+		o.Equal = append(o.Equal, equal)
+
+		var opErr error
+
+		switch op.Kind {
+		case "create":
+			opErr = proc.OnCreated(rs)
+		case "update":
+			opErr = proc.OnUpdated(rs)
+		default:
+			opErr = proc.OnDeleted(rs)
+		}
+
+		o.Ops = append(o.Ops, opErr == nil)
+
+		if opErr == nil {
+			if op.Kind == "delete" {
+				delete(known, op.Src)
+			} else {
+				known[op.Src] = hashes
+			}
+		}
+	}
+
+	for _, l := range c.Lookups {
+		u := &heimdall.URL{}
+		u.Scheme, u.Host, u.Path = "http", "a.example", l.Path
+
+		found, err := repo.FindRule(&c02Ctx{req: &heimdall.Request{Method: l.Method, URL: u}})
+
+		switch {
+		case err == nil && c.Default && found == factory.DefaultRule():
+			o.Lookups = append(o.Lookups, "default")
+		case err == nil:
+			o.Lookups = append(o.Lookups, "rule:"+found.ID())
+		case errors.Is(err, heimdall.ErrNoRuleFound):
+			o.Lookups = append(o.Lookups, "norule")
+		default:
+			o.Lookups = append(o.Lookups, "other:"+err.Error())
+		}
+	}
+
+	return o
+}
+
+func TestVerifC02History(t *testing.T) {
+	w := vf.NewWriter()
+	defer w.Close()
+
+	root := vf.NewRand(vf.Seed() + 11000027)
+	n := vf.N(200)
+	idx := 0
+
+	emit := func(stream string, c c02gen.HistCase) {
+		if vf.Want(idx) {
+			o := c02RunHist(c)
+			nt, tags := c02gen.HistClassify(c, o)
+			w.Put(vf.Obs{I: idx, Stream: stream, In: c, Out: o, Coq: c02gen.HistCoq(c, o), Nontrivial: nt, Tags: tags})
+		}
+
+		idx++
+	}
+
+	for _, c := range c02gen.HistCorpus() {
+		emit("corpus", c)
+	}
+
+	for i := 0; i < n; i++ {
+		emit("generated", c02gen.GenHist(root.Fork(uint64(i))))
+	}
+}
+
+func c02RunProc(c c02gen.RepoCase) (o c02gen.RepoObs) {
+	defer func() {
+		if p := recover(); p != nil {
+			o.Panic = fmt.Sprint(p)
+		}
+	}()
+
+	conf := &config.Configuration{}
+	if c.Default {
+		conf.Default = &config.DefaultRule{
+			BacktrackingEnabled: c.DefaultBt,
+			Execute:             []config.MechanismConfig{{"authenticator": "a"}},
+		}
+	}
+
+	factory, err := NewRuleFactory(c02MechFactory{}, conf, config.DecisionMode, zerolog.Nop())
+	if err != nil {
+		panic(err)
+	}
+
+	repo := newRepository(factory)
+	proc := NewRuleSetProcessor(repo, factory)
+
+	for _, s := range c.Sets {
+		rs := &config2.RuleSet{Version: config2.CurrentRuleSetVersion, Name: fmt.Sprintf("set%d", s.Src)}
+		rs.Source = fmt.Sprintf("src%d", s.Src)
+
+		for _, ru := range s.Rules {
+			rs.Rules = append(rs.Rules, c02RuleConfig(c, ru))
+		}
+
+		o.Sets = append(o.Sets, proc.OnCreated(rs) == nil)
+	}
+
+	for _, l := range c.Lookups {
+		u := &heimdall.URL{}
+		u.Scheme, u.Host, u.Path = l.Scheme, l.Host, l.Path
+
+		found, err := repo.FindRule(&c02Ctx{req: &heimdall.Request{Method: l.Method, URL: u}})
+
+		switch {
+		case err == nil && c.Default && found == factory.DefaultRule():
+			o.Lookups = append(o.Lookups, "default")
+		case err == nil:
+			o.Lookups = append(o.Lookups, "rule:"+found.ID())
+		case errors.Is(err, heimdall.ErrNoRuleFound):
+			o.Lookups = append(o.Lookups, "norule")
+		default:
+			o.Lookups = append(o.Lookups, "other:"+err.Error())
+		}
+	}
+
+	return o
+}
+
+func TestVerifC02Processor(t *testing.T) {
+	w := vf.NewWriter()
+	defer w.Close()
+
+	root := vf.NewRand(vf.Seed() + 9000011)
+	n := vf.N(200)
+	idx := 0
+
+	emit := func(stream string, c c02gen.RepoCase) {
+		if vf.Want(idx) {
+			o := c02RunProc(c)
+			nt, tags := c02gen.RepoClassify(c, o)
+			w.Put(vf.Obs{I: idx, Stream: stream, In: c, Out: o, Coq: c02gen.RepoCoq(c, o), Nontrivial: nt, Tags: tags})
+		}
+
+		idx++
+	}
+
+	for _, c := range c02gen.ProcCorpus() {
+		emit("corpus", c)
+	}
+
+	for i := 0; i < n; i++ {
+		emit("generated", c02gen.GenProc(root.Fork(uint64(i))))
+	}
 }
 
 func TestVerifC02Repo(t *testing.T) {
